@@ -75,7 +75,9 @@ def worker_main(argv):
     }
     per_case_wall = getattr(mod, "CASE_WALL_LIMIT", 600)
     for i, case in enumerate(mod.cases(tier, seed)):
-        if i % nshards != shard:
+        # (a multiplicative hash of the case index, not the index itself: a workload that makes every 120th case an
+        # expensive one would otherwise hand all of them to one of 15 shards)
+        if (((i * 0x9E3779B1) & 0xFFFFFFFF) >> 12) % nshards != shard:
             continue
         faulthandler.dump_traceback_later(per_case_wall, exit=True)
         t0 = time.process_time()
